@@ -190,6 +190,21 @@ def run_unit(u):
                 chk('select', e_sel, None if unspec else exp_sel)
                 chk('iselect==select', rec.call('c.iselect', comp.iselect, tgt), ('same', e_sel))
                 chk('select_one', rec.call('c.select_one', comp.select_one, tgt), ('first', e_sel), 'one')
+
+                # iselect consumed lazily and interleaved with other queries on the same document must still yield the sequence
+                def lazy():
+                    it = comp.iselect(tgt)
+                    out = []
+                    first = next(it, None)
+                    if first is not None:
+                        out.append(first)
+                        comp.select_one(tgt)                    # another query in between
+                        it2 = comp.iselect(tgt, limit=2)
+                        next(it2, None)
+                        out.extend(it)
+                        list(it2)
+                    return out
+                chk('iselect (lazy, interleaved) == select', rec.call('c.iselect', lazy), ('same', e_sel))
                 for k in rng.sample(LIMITS, 3):
                     chk('select(limit=%d)' % k, rec.call('c.select', comp.select, tgt, k), ('prefix', e_sel, k))
                     chk('iselect(limit=%d)' % k, rec.call('c.iselect', comp.iselect, tgt, limit=k), ('prefix', e_sel, k))
